@@ -86,6 +86,9 @@ theorem wpOk_pkceHandle (rc : RunCfg) (cfg : Config) (code : Presented) (v : Str
   | inactive x => simp only [Res.errKind]; exact wpOk_fail rc _ Q _
   | client c => simp only [Res.errKind]; exact wpOk_fail rc _ Q _
   | nat n => simp only [Res.errKind]; exact wpOk_fail rc _ Q _
+  | par p => simp only [Res.errKind]; exact wpOk_fail rc _ Q _
+  | dev d => simp only [Res.errKind]; exact wpOk_fail rc _ Q _
+  | usedDev d => simp only [Res.errKind]; exact wpOk_fail rc _ Q _
 
 /-- success-path specification of the OIDC explicit `PopulateTokenEndpointResponse`: it only touches
     the OIDC session table -/
@@ -117,6 +120,9 @@ theorem wpOk_oidcExplicitPopulate (rc : RunCfg) (code : Presented) (client : Cli
   | inactive x => simp only [Res.errKind]; exact wpOk_fail rc _ Q _
   | client c => simp only [Res.errKind]; exact wpOk_fail rc _ Q _
   | nat n => simp only [Res.errKind]; exact wpOk_fail rc _ Q _
+  | par p => simp only [Res.errKind]; exact wpOk_fail rc _ Q _
+  | dev d => simp only [Res.errKind]; exact wpOk_fail rc _ Q _
+  | usedDev d => simp only [Res.errKind]; exact wpOk_fail rc _ Q _
 
 end Fosite.Model
 
